@@ -118,8 +118,9 @@ def build_grader(spec):
                                 for n, v in k['sample_from'].items()}
         return k
     list_debug = cfg.pop('_list_debug', False)
+    sub_cls = cfg.pop('_sub', 'Formula')
     if cls == 'List':
-        sub = mg.FormulaGrader(**kwargs_of(cfg))
+        sub = {'Formula': mg.FormulaGrader, 'Numerical': mg.NumericalGrader, 'Matrix': mg.MatrixGrader}[sub_cls](**kwargs_of(cfg))
         return mg.ListGrader(answers=list(spec['answers']), subgraders=sub, ordered=True, debug=list_debug), sub
     klass = {'Formula': mg.FormulaGrader, 'Numerical': mg.NumericalGrader, 'Matrix': mg.MatrixGrader, 'Sum': mg.SumGrader}[cls]
     g = klass(answers=spec['answers'], **kwargs_of(cfg))
@@ -621,10 +622,32 @@ class Gen:
         rng = self.rng
         cfg, restricted, allowed = base_cfg(rng)
         cfg.update(author_options(rng, 'List'))
-        A1, H1 = rng.choice(FORMULA_PROBLEMS[:5])
-        A3, H3 = rng.choice(FORMULA_PROBLEMS[:5])
-        shape = rng.choice(['1<-2', '2<-1', '2<-1,3', '1<-2,3'])
-        if shape == '1<-2':
+        # the single SHARED subgrader: with or without numbered variables, a Formula-, Matrix- or NumericalGrader
+        sub = rng.choice(['Formula', 'Formula', 'Matrix', 'Numerical'])
+        cfg['_sub'] = sub
+        if rng.random() < 0.5 or sub == 'Numerical':
+            cfg['numbered_vars'] = []
+            cfg['sample_from'] = {k: v for k, v in cfg['sample_from'].items() if k != 'a'}
+            cfg['instructor_vars'] = [v for v in cfg['instructor_vars'] if not v.startswith('a_')]
+        problems = FORMULA_PROBLEMS[:5]
+        yvar = 'y'
+        if sub == 'Numerical':
+            for k in ('variables', 'numbered_vars', 'sample_from', 'samples', 'failable_evals'):
+                cfg.pop(k, None)
+            cfg['user_constants'] = {'c': 3.0, 'd': 2.0}
+            cfg['instructor_vars'] = ['c']
+            problems = [('2*c+1', '7'), ('c^2', '9'), ('d+1', '1+d'), ('2^3', '8')]
+            yvar = 'd'
+        if sub == 'Matrix':
+            cfg['max_array_dim'] = 1
+        A1, H1 = rng.choice(problems)
+        A3, H3 = rng.choice(problems)
+        shape = rng.choice(['1<-2', '2<-1', '2<-1,3', '1<-2,3', '2<-1;3', '2<-1;3', '1;3<-2'])
+        if shape == '2<-1;3':            # a box after the referencing one whose own answer names no sibling
+            answers, honest_in = [A1, 'sibling_1^2', A3], [H1, '(%s)^2' % H1, H3]
+        elif shape == '1;3<-2':
+            answers, honest_in = [A1, A3, 'sibling_2+1'], [H1, H3, '(%s)+1' % H3]
+        elif shape == '1<-2':
             answers, honest_in = ['sibling_2^2', A1], ['(%s)^2' % H1, H1]
         elif shape == '2<-1':
             answers, honest_in = [A1, 'sibling_1+1'], [H1, '(%s)+1' % H1]
@@ -634,14 +657,18 @@ class Gen:
             answers, honest_in = ['sibling_2+sibling_3', A1, A3], ['(%s)+(%s)' % (H1, H3), H1, H3]
         n = len(answers)
         honest = self.add('List', cfg, answers, list(honest_in), 'honest', 'credit', shape=shape)
-        terms = restricted_terms(rng, cfg, restricted, allowed)
-        terms += [('sibling', 'sibling_%d' % k, 'y', 'undefined') for k in range(1, n + 2)]
-        terms += [('sibling', 'sibling_%d' % rng.randint(1, n), 'y', 'undefined') for _ in range(2)]
+        terms = restricted_terms(rng, cfg, restricted, allowed, scalar_vars=('x', yvar) if sub != 'Numerical' else (yvar, yvar))
+        terms = [(k, T, (yvar if Tok == 'y' else Tok), e) for k, T, Tok, e in terms]
+        terms += [('sibling', 'sibling_%d' % k, yvar, 'undefined') for k in range(1, n + 2)]
+        terms += [('sibling', 'sibling_%d' % rng.randint(1, n), yvar, 'undefined') for _ in range(2)]
         rng.shuffle(terms)
         # always: the box whose answer is built from a sibling mentions that sibling itself
         import re as _re
         refs = [(i, k) for i, a in enumerate(answers) for k in _re.findall(r'sibling_\d+', a)]
-        forced = [('sibling', k, 'y', 'undefined', i) for i, k in refs[:2]]
+        forced = [('sibling', k, yvar, 'undefined', i) for i, k in refs[:2]]
+        # and: every box whose own answer names no sibling mentions each sibling that some other box's answer does
+        forced += [('sibling', k, yvar, 'undefined', i) for i, a in enumerate(answers) if 'sibling_' not in a
+                   for k in sorted({k for _, k in refs})]
         for item in forced + [t + (None,) for t in terms[:n_cheats]]:
             kind, T, Tok, expect, forced_box = item
             box = rng.randrange(n) if forced_box is None else forced_box
@@ -652,7 +679,10 @@ class Gen:
                 inp[box] = spaced(rng, tmpl.format(H=honest_in[box], T=t))
                 return inp
             twin = self.add('List', cfg, answers, with_box(Tok), 'control', 'credit', honest=honest, shape=shape)
-            self.add('List', cfg, answers, with_box(T), kind, expect, honest=honest, twin=twin, term=T, box=box, shape=shape)
+            # the same grader object may already have graded every box (an earlier submission)
+            extra = {'history': [list(honest_in)] * rng.randint(1, 2)} if rng.random() < 0.5 else {}
+            self.add('List', cfg, answers, with_box(T), kind, expect, honest=honest, twin=twin, term=T, box=box, shape=shape,
+                     **extra)
 
     def format_corpus(self):
         """deterministic witness: an undefined name that differs only by case from a defined name with braces"""
